@@ -30,7 +30,9 @@ def run(ctx):
         if not tlc.expect_ok(ctx, r, cfg):
             raise CheckBroken("specification Threads (%s) violates %s: %s" % (cfg, r.violated, r.out[-1200:]))
         ctx.sample({"model": "Threads", "cfg": cfg, "distinct_states": r.distinct})
-    for cfg, inv in (("Threads_mut_fftw_unlocked.cfg", "PlannerExclusive"), ("Threads_mut_shared.cfg", None)):
+    for cfg, inv in (("Threads_mut_fftw_unlocked.cfg", "PlannerExclusive"), ("Threads_mut_shared.cfg", None),
+                     ("Threads_mut_tables.cfg", "TablesAlive"),          # twiddle tables published once and freed by the processor that built them
+                     ("Threads_mut_statictmp.cfg", "Deterministic")):    # evaluation temporaries shared by all callers
         rm = tlc.run_tlc("Threads", cfg=cfg, workdir=ctx.dir, workers=4)
         if not rm.violated or (inv and rm.violated != inv):
             raise CheckBroken("design mutant %s not rejected: %r" % (cfg, rm))
